@@ -32,6 +32,8 @@ ASSUMPTIONS = [
     "strain < 0 is outside the helper's domain (it then returns the short axis; replayed and counted, not alarmed)",
 ]
 JIT_TWIN = ('diag',)   # groups of harness/jittwin.py: the numba-compiled code is run on the same battery and compared
+PRE_LEAN = C.s2_trace_diag   # S2: the diagnostics kernels around the LAPACK calls are re-traced on every run
+EXTRA_LEAN_MODULES = ("Bridge.Diag",)
 TRUSTED = ["recording proxy substituted for the module attribute pydrex.diagnostics.la at run time"]
 
 TOL = 1e-9
